@@ -177,6 +177,11 @@ func c14Files(g *gen.G, pi int) []string {
 		}
 		out = append(out, g.File(gen.FileOpts{Plants: plants, Imports: imports, Decls: 2 + r.Intn(5)}))
 	}
+	if pi == 0 {
+		// a file with CRLF line ends directly in front of a file that has no line end at all: what is found out about
+		// one file (its line ends, its first line) says nothing about the next
+		out = append(out, strings.ReplaceAll(out[0], "\n", "\r\n"), "package p; func oneLine() { bump(7) }")
+	}
 	out = append(out, "package p\n\nfunc broken( {\n")                                               // unparseable
 	out = append(out, "// Code generated by x. DO NOT EDIT.\n\npackage p\n\nfunc g() { bump(1) }\n") // generated
 	return out
